@@ -16,10 +16,11 @@ from vmon.wsgi import make_environ, call_app, check_framing
 RULE = ('programs = product of return kinds (str, bytes, empty, None, list/generator/custom iterator of str or bytes with leading empty items, '
         'all-empty iterable, file-like with/without close and with/without wsgi.file_wrapper, HTTPResponse/HTTPError returned / raised / yielded '
         'first / nested three deep / carrying a generator body, exception in the handler / at the first next(), unsupported types, abort()) x method {GET,HEAD,POST} x '
-        'status {200,201,204,304,100,102,404,500, 299 (no registered reason phrase), "250 Custom Reason" (line kept verbatim)} x hooks {none, 2 before + 2 after, failing before-hook, before-hook raising a response} x '
+        'status {200,201,204,304,100,102,404,500, 299 (no registered reason phrase), 999 (the highest code accepted), "250 Custom Reason" (line kept verbatim)} x hooks {none, 2 before + 2 after, failing before-hook, before-hook raising a response} x '
         'error handlers {default, custom returning str, custom raising; thorough adds bytes, None, generator, response object, same error again} x routing outcome {found, 404, 405}. '
         'Non-trivial = anything but a plain str/bytes return with default configuration; distinct = distinct program.')
-REQUIRED = ['custom_reason_phrases', 'self_modifying_hook_requests', 'programs', 'sr_once', 'validator_agreed', 'content_length_checked', 'no_body_statuses', 'head_requests', 'closed_once_checked',
+PYOPT = {'quick': 1, 'thorough': 1}     # one unit of every kind is also served by an interpreter started with -O (assert statements compiled out)
+REQUIRED = ['units_run_under_python_-O', 'custom_reason_phrases', 'self_modifying_hook_requests', 'programs', 'sr_once', 'validator_agreed', 'content_length_checked', 'no_body_statuses', 'head_requests', 'closed_once_checked',
             'hook_traces_checked', 'failing_before_hook', 'handler_exceptions_to_500', 'last_resort_pages', 'outcome_404', 'outcome_405',
             'file_wrapper_used', 'generator_first_next_raises', 'response_yielded_first', 'nested_responses']
 EXHAUSTIVE = {'quick': True, 'thorough': True,
@@ -35,7 +36,7 @@ KINDS = ['str', 'bytes', 'str_nonascii', 'empty_str', 'empty_bytes', 'none', 'li
          'exception', 'gen_exception_first', 'unsupported_int', 'unsupported_list', 'abort', 'gen_raises_resp', 'dict_false', 'iter_of_lists',
          'iterable_sep_iter', 'iterable_gen_iter', 'iterable_sep_iter_bytes']
 METHODS = ['GET', 'HEAD', 'POST']
-STATUSES = [200, 201, 204, 304, 100, 102, 404, 500, 299, '250 Custom Reason']     # 299: no registered reason phrase
+STATUSES = [200, 201, 204, 304, 100, 102, 404, 500, 299, 999, '250 Custom Reason']     # 299: no registered reason phrase
 
 
 def code_of(S):
